@@ -17,6 +17,9 @@ for s in $seeds; do
   [ "$s" = "C11-f" ] && checks="C11 C12"   # stale cached encoding needs two overlapping commands: C12's overlapping pairs
   [ "$s" = "C06-f" ] && checks="C06 C17"   # a probe left in flight / sent after the failed command returned: C17 owns the probe timing (slow-probe configs, select choice points)
   [ "$s" = "C10-e" ] && checks="C10 C12"
+  [ "$s" = "C04-j" ] && checks="C04 C05"   # two overlapping deploys claiming one host: C05's racing deploys
+  [ "$s" = "C07-j" ] && checks="C07 C10"   # the group of a held request decided before the gate: rollout commands while paused = C10's held-across-split-change scenarios (C03 reports it too)
+  [ "$s" = "C13-j" ] && checks="C13 C14"   # buffers shared after an event stream: C14's overlapping buffered responses
   [ "$s" = "C11-i" ] && checks="C11 C12"   # a save skipped while another snapshot is being written: overlapping commands = C12's pairs
   if grep -q '"neutralised_by"' seeded/$s/meta.json 2>/dev/null; then
     echo "$s neutralised-by-a-later-fix (see meta.json: its trigger no longer exists; demo passes on the rebased patch)" | tee -a $tmp
